@@ -135,6 +135,9 @@ class Client:
         if t.armed and t.crash_at is not None:
             if t.writes == t.crash_at:
                 t.log.append(('CRASH-BEFORE', op, path, self.session))
+                if getattr(t, 'fault', 'crash') == 'error':
+                    t.writes += 1
+                    raise kx.ConnectionLoss()
                 raise Crash()
         if t.armed:
             t.writes += 1
